@@ -35,6 +35,9 @@ JOBS = [
       fuc=["myth_mutex_timedlock_body", "myth_timespec_gt"], timeout=300),
   Job("c04.lemmas", TU, "h_lemmas", timeout=200),
 ] + wake_one_jobs("c04") + block_jobs("c04") + sleepq_jobs("c04") + spin_jobs("c04")
+# the public API functions are one-line forwarders to the bodies under contract: checked mechanically (DESIGN §3.5b)
+from units.common_forward import forward_job
+JOBS = list(JOBS) + [forward_job("c04")]
 META = {
  "level": "proof",
  "level_text": "Rely/guarantee contracts on the real mutex bodies: every own atomic step on the state word must be a legal protocol transition under arbitrary interference before every read and every CAS; retry loops closed by loop contracts (unbounded).",
